@@ -125,17 +125,28 @@ def rangePiece (r : AddrRange) : List Piece := if r.len = 0 then [] else [⟨r.a
 def lutIndex (activation : Nat) : Option Nat :=
   if activation % 32 ≥ 16 then some (activation % 8) else none
 
-/-- Bytes of the table a TABLE_LOOKUP activation reads, decided by the *programmed* precisions (hand-written from the
-    table formats `lut.create_lut_tensor` builds and `lut.get_lut_index` addresses): an 8-bit IFM indexes 256 entries of
-    OFM width — 256 bytes for an 8-bit result, 1 KiB for the int32 result of the softmax exponent table — and a 16-bit IFM
-    interpolates in 512 entries of 32 bits (base and slope): 2 KiB, the whole table window. -/
-def lutTableBytes (b : BlockOp) : Nat :=
-  if b.ifm.elemBytes = 1 then 256 * b.ofm.elemBytes else 2048
+/-- Precision (bytes) of the value the activation stage — and with it the table lookup — works on: the OFM precision,
+    unless the ACTIVATION register forces a range (`clip_range`, bits 12..15 of the register: 2 = uint8, 3 = int8,
+    5 = int16; `ethos_u55_regs.clip_range`). Vela forces int8 when the OFM is int32 (the softmax exponent table). -/
+def actBytes (b : BlockOp) : Nat :=
+  let clip := b.activation / 4096 % 16
+  if clip = 2 ∨ clip = 3 then 1 else if clip = 5 then 2 else b.ofm.elemBytes
 
-/-- SHRAM address of table `li`: slots are counted in units of the table size (`lut.get_lut_index`:
-    slot = offset in the window / table size), so slot 1 of an 8-bit table starts 256 bytes into the window
-    and slot 1 of a 1 KiB table 1024 bytes into it; a 2 KiB table only fits slot 0. -/
-def lutAddr (e : Env) (b : BlockOp) (li : Nat) : Nat := e.lutBase + li * lutTableBytes b
+/-- Bytes of the table a TABLE_LOOKUP activation reads, decided by the *programmed* precisions (hand-written from the
+    register description and from the table formats `lut.create_lut_tensor` builds / `lut.get_lut_index` addresses):
+    an 8-bit activation value indexes 256 entries of OFM width — 256 bytes for an 8-bit result, 1 KiB for the int32
+    result of the softmax exponent table — and a 16-bit one interpolates in 512 entries of 32 bits (base and slope):
+    2 KiB, the whole table window. The IFM precision plays no role: a requantising operation (int8 -> int16) fused with
+    a 16-bit table reads the 2 KiB table. Anything else counts as the whole window. -/
+def lutTableBytes (b : BlockOp) : Nat :=
+  if actBytes b = 1 then 256 * b.ofm.elemBytes else 2048
+
+/-- SHRAM address of the table selected by activation value 16 + `li`: the index counts 256-byte units of the table window
+    whatever the table size (`lut.optimize_high_level_cmd_stream` programs (address − window start) / 256 when it places a
+    table: a 1 KiB table in the upper half of the window is index 4, a 2 KiB table only fits index 0).
+    `lut.get_lut_index`, used when an equal table is found in SHRAM again, divides by the table size instead; the two agree
+    for 256-byte tables and for offset 0. -/
+def lutAddr (e : Env) (_b : BlockOp) (li : Nat) : Nat := e.lutBase + li * 256
 
 def blockAccesses (b : BlockOp) (i : OpInfo) (e : Env) : List Access :=
   [ ⟨b.ifm.region, false, "IFM", fmPieces b.ifm i.ifm.y0 i.ifm.x0 i.ifm.c0⟩ ] ++
@@ -321,7 +332,7 @@ def lutSideProblems (ops : List DecOp) (infos : List Info) : List String :=
       (match lutIndex b.activation with
        | some li =>
          if i.lutLen ≠ lutTableBytes b then
-           [s!"op {idx} LUT: the table loaded for it has {i.lutLen} bytes, the operation reads {lutTableBytes b} bytes at slot {li} (IFM {b.ifm.elemBytes}-byte, OFM {b.ofm.elemBytes}-byte elements)"]
+           [s!"op {idx} LUT: the table loaded for it has {i.lutLen} bytes, the operation reads {lutTableBytes b} bytes at slot {li} (activation on {actBytes b}-byte values, OFM {b.ofm.elemBytes}-byte elements)"]
          else []
        | none => [])
     | _, _ => []
